@@ -26,7 +26,8 @@ type Anchors struct {
 	Line, Config, HSet, HNode                       *types.Named
 	CfgMe, CfgPass, CfgRecover, CfgFlood, CfgServer *types.Var
 
-	Teardown          *ssa.Function   // contains dispatch of DISCONNECTED
+	Teardown          *ssa.Function   // contains dispatch of DISCONNECTED (the event function)
+	TeardownCore      *ssa.Function   // clears the connected flag and waits (== Teardown unless split into a helper)
 	Connect           *ssa.Function   // stores true to Connected
 	Members           []*ssa.Function // spawned under Add on WG
 	ConnDispatch      *ssa.Function   // (*Conn).dispatch
@@ -185,6 +186,27 @@ func (p *Prog) ResolveAnchors() *Anchors {
 	}
 	if a.Teardown == nil {
 		a.miss("teardown function (dispatch of DISCONNECTED)")
+	}
+	// the core: the function storing false to the connected flag
+	for _, fn := range p.ModFuncs {
+		if fn.Package() != cl {
+			continue
+		}
+		funcInstrs(fn, func(in ssa.Instruction) {
+			if s, ok := in.(*ssa.Store); ok {
+				if fv, _ := fieldOf(s.Addr); fv != nil && fv == a.Connected {
+					if c, ok := s.Val.(*ssa.Const); ok && c.Value != nil && c.Value.String() == "false" {
+						if a.TeardownCore != nil && a.TeardownCore != fn {
+							a.miss("more than one function clears the connected flag")
+						}
+						a.TeardownCore = fn
+					}
+				}
+			}
+		})
+	}
+	if a.TeardownCore == nil {
+		a.TeardownCore = a.Teardown
 	}
 	if a.Connect == nil {
 		a.miss("connect routine (store true to connected flag)")
